@@ -27,6 +27,10 @@ KINDS = ['source', 'handler', 'processor', 'buffer', 'gate', 'batcher', 'sink', 
          'psensor', 'osensor', 'cms']
 
 
+class SubSystem(System):
+    '''A user subclass of System (same behaviour).'''
+
+
 class _Hub:
     _canon_skip = ('tlog',)
 
@@ -66,6 +70,7 @@ class LifeWorld(CompWorld):
         out = []
         if len(self.systems) < self.max_sys:
             out.append(('newsys',))
+            out.append(('newsubsys',))
         for k in self.kinds:
             out.append(('create', k))
         for i in range(len(self.systems)):
@@ -132,8 +137,8 @@ class LifeWorld(CompWorld):
         self._enter()
         try:
             k = label[0]
-            if k == 'newsys':
-                s = System()
+            if k in ('newsys', 'newsubsys'):
+                s = System() if k == 'newsys' else SubSystem()
                 self.systems.append(s)
                 self.ref.append([])
                 if System._instance is not s:
